@@ -395,6 +395,24 @@ def written_fields(fn):
 
     ptr_map = {"parentpointer": "childnotready", "childpointers": "parentsense"}
 
+    def private_copy(t):
+        """does the access path start at a local object held by value (neither reference, pointer nor alias)?"""
+        hops = 0
+        while isinstance(t, dict) and hops < 12:
+            hops += 1
+            k = t.get("k")
+            if k in ("mem", "idx"):
+                t = t.get("b")
+                continue
+            if k == "cast":
+                t = t.get("e")
+                continue
+            if k == "ref":
+                ty = t.get("t") or {}
+                return t.get("vk") == "local" and t.get("n") not in al and not ty.get("ref") and not ty.get("ptr")
+            return False
+        return False
+
     def fields_of(t):
         # outermost member of the written object; a store *through* a pointer member designates the pointee's field
         cur = t
@@ -404,6 +422,8 @@ def written_fields(fn):
             hops += 1
             k = cur.get("k")
             if k == "mem":
+                if private_copy(cur.get("b")):
+                    return None        # a field of a by-value local (`for (auto n : flags) n.flag = 0`): not the barrier's state
                 return ptr_map.get(cur["n"], cur["n"]) if deref else cur["n"]
             if k == "idx":
                 cur = cur["b"]
